@@ -25,9 +25,11 @@ ToSet(kids) == {D(kids[i].name, kids[i].vals, ToSet(kids[i].kids)) : i \in 1..Le
 \* choice; a cardinality error carries the schema path (no list entry names)
 NoChoiceName(v) == [k |-> v.k, n |-> IF v.k = "choice" THEN "" ELSE v.n, path |-> IF v.k = "count" THEN v.sp ELSE v.path]
 
-\* leaves of a tree as [path, vals]
+\* the nodes of a tree as [path, vals]
 RECURSIVE Flat(_, _)
-Flat(dk, path) == UNION {IF d.kids = {} THEN {[path |-> path \o <<d.name>>, vals |-> d.vals]} ELSE Flat(d.kids, path \o <<d.name>>) : d \in dk}
+Flat(dk, path) == UNION {{[path |-> path \o <<d.name>>, vals |-> d.vals]} \cup Flat(d.kids, path \o <<d.name>>) : d \in dk}
+\* a representative of a set of nodes: one that carries a value if there is any
+Pick(S) == IF \E e \in S : e.vals # << >> THEN CHOOSE e \in S : e.vals # << >> ELSE CHOOSE e \in S : TRUE
 \* is the schema node reached by a data path below a choice?
 RECURSIVE UnderChoice(_, _)
 UnderChoiceIn(kids, nm) == \E i \in 1..Len(kids) : kids[i].kind \in {"choice", "case"} /\ HasVisible(kids[i].kids, nm)
@@ -41,7 +43,7 @@ DecoDiff(sch, d, want, got) ==
   LET extra == Flat(got, << >>) \ Flat(want, << >>)
       lost  == Flat(want, << >>) \ Flat(got, << >>)
       expl  == Flat(Prune(sch, d), << >>)
-      x     == IF extra # {} THEN CHOOSE e \in extra : TRUE ELSE CHOOSE e \in lost : TRUE
+      x     == IF extra # {} THEN Pick(extra) ELSE Pick(lost)
   IN [what |-> IF (lost \cap expl) # {} THEN "explicit-data-altered"
                ELSE IF extra # {} THEN "extra-node" ELSE "default-missing",
       inchoice |-> UnderChoice(sch, x.path), leaf |-> x.path]
